@@ -162,6 +162,7 @@ type PropConfig struct {
 	Lemmas     []string     `json:"lemmas"`
 	ExtraFuncs []string     `json:"extra_funcs"`
 	Standins   []StandinCfg `json:"standins"`
+	Scans      []string     `json:"scans"`
 	NotDecided []string     `json:"clauses_not_decided"`
 	Bounded    []string     `json:"bounded_clauses"`
 	Note       string       `json:"note"`
@@ -227,6 +228,42 @@ func firstOr(ls []string) string {
 }
 
 var evStandins []StandinResult
+var evScans []ScanResult
+
+type ScanResult struct {
+	Name     string   `json:"name"`
+	Checked  int      `json:"globals_checked"`
+	Findings []string `json:"findings"`
+	What     string   `json:"what"`
+}
+
+func (e *Engine) scanGlobalWrites() ScanResult {
+	res := ScanResult{Name: "global-write", What: "every package-level variable of the repository packages under contract: no Store / map update / delete outside package init"}
+	for _, rel := range contractPkgs {
+		sp := e.ssaPkg[modPath+"/"+rel]
+		if sp == nil {
+			continue
+		}
+		var names []string
+		for n, m := range sp.Members {
+			if _, ok := m.(*ssa.Global); ok {
+				names = append(names, n)
+			}
+		}
+		sort.Strings(names)
+		for _, n := range names {
+			g := sp.Members[n].(*ssa.Global)
+			if strings.HasPrefix(n, "init$") {
+				continue
+			}
+			res.Checked++
+			if !e.globalNeverWritten(g) {
+				res.Findings = append(res.Findings, "package-level variable "+rel+"."+n+" is written outside init")
+			}
+		}
+	}
+	return res
+}
 
 func cmdCheck(args []string) int {
 	fs := flag.NewFlagSet("check", flag.ExitOnError)
@@ -380,6 +417,22 @@ func cmdCheck(args []string) int {
 		}
 	}
 	evStandins = standins
+	// mechanical scans (syntactic frame conditions over all loaded functions of the repository)
+	evScans = nil
+	for _, sc := range pc.Scans {
+		if sc == "global-write" {
+			res := eng.scanGlobalWrites()
+			evScans = append(evScans, res)
+			for _, w := range res.Findings {
+				standinViol++
+				path := filepath.Join(outRoot(), "replays", P, "scan_global_write.replay.json")
+				os.MkdirAll(filepath.Dir(path), 0o755)
+				data, _ := json.MarshalIndent(ReplayFile{Property: P, Obligation: "scan global-write", Kind: "scan", Clause: "no package-level variable of the device/midi/config/input packages is written after init (devices share no mutable state)", Status: "failed", ReplayNote: w}, "", " ")
+				os.WriteFile(path, data, 0o644)
+				fmt.Printf("VIOLATION property=%s replay=%s no-failing-input-found\n  %s\n", P, path, w)
+			}
+		}
+	}
 	if len(undecided) > 0 {
 		for _, u := range undecided {
 			fmt.Printf("UNDECIDED property=%s reason=%s\n", P, u)
